@@ -30,6 +30,8 @@ SPEC = {
         "outcome sets rendered to JUnit XML in four layouts (flat, <testsuites>, bare, nested) with XML metacharacters, CDATA, char refs, shuffled children, "
         "and to `go test -v` text with subtests; several result files per target",
         "the flake loop is replayed in the harness on the real Add/AllSucceeded following the regenerated loop shape (doFlakeRun itself needs a test process)",
+        "the counters isPass/isError/isFailure/isSkip and allSucceeded are written by hand in Model/TestResults.lean; their *Cond facts only pin the source text of the "
+        "conditions (sorted conjuncts), the semantic tie is the exhaustive correspondence over all execution lists up to length 3; only the flake counter and the parser conversions follow a fact",
         "modelled, not verified: Model/TestResults.lean; not modelled: encoding/xml, go-junit-report, reading of result files from disk, the UnitTest++ <test> format, durations/properties/output text",
         "direct oracle: an independent reading of the outcome set (every case of every suite, an unfinished Go test is an error, flaky = passed after a failed/errored execution)",
     ],
